@@ -69,7 +69,11 @@ Steps(s, t) ==
          \* a send first commits (reserves a slot of a bounded channel) (fails once the channel is closed), then pushes: a slot reserved before
          \* close() may still be used afterwards, and the value is dropped silently if the receiver is gone by then
          LET c == s.ch[o] IN
+         \* (a waiting send that was handed its slot and then finds the channel closed when it runs again may also give
+         \*  the slot back and fail: tokio's semaphore answers Closed to a waiter polled after close() even if its permits
+         \*  had been assigned)
          IF q THEN {Done([s EXCEPT !.ch[o].resv = @ - 1, !.ch[o].buf = IF c.rx THEN Append(@, v) ELSE @], t, 0)}
+                   \cup (IF ClosedS(c) THEN {Done([s EXCEPT !.ch[o].resv = @ - 1], t, -1)} ELSE {})
          ELSE IF ClosedS(c) THEN {Done(s, t, -1)}
          ELSE IF FullC(c) THEN {}
          ELSE {[s EXCEPT !.ch[o].resv = @ + 1, !.st[t+1] = "queued"]}
